@@ -80,3 +80,134 @@ theorem linearHash_eq_spec (perm : List Wd → List Wd) (input : List Wd) :
     simp
 
 end GoldilocksVerif.Model
+
+/-! ### linear_hash_avx512: the interleaved two-input loop is the pair of one-input loops (C07, AVX512 clause) -/
+namespace GoldilocksVerif.Model
+
+theorem blk_pieces (a cap : List Wd) (n : Nat) (ha : a.length = n) (hn : n ≤ 8) (hc : cap.length = 4) :
+    ((a ++ zeros (8 - n)) ++ cap).take 4 = a.take 4 ++ zeros (4 - min n 4) ∧
+    (((a ++ zeros (8 - n)) ++ cap).drop 4).take 4 = a.drop 4 ++ zeros (4 - (n - 4)) ∧
+    (((a ++ zeros (8 - n)) ++ cap).drop 8).take 4 = cap := by
+  subst ha
+  refine ⟨?_, ?_, ?_⟩
+  · simp only [zeros, List.take_append, List.length_append, List.length_replicate, List.take_replicate]
+    have e1 : 4 - (a.length + (8 - a.length)) = 0 := by omega
+    have e2 : min (4 - a.length) (8 - a.length) = 4 - min a.length 4 := by omega
+    rw [e1, e2, List.take_zero, List.append_nil]
+  · simp only [zeros, List.drop_append, List.take_append, List.length_append, List.length_replicate, List.take_replicate,
+      List.drop_replicate, List.length_drop]
+    have e1 : 4 - (a.length - 4 + (8 - a.length - (4 - a.length))) = 0 := by omega
+    have e2 : min (4 - (a.length - 4)) (8 - a.length - (4 - a.length)) = 4 - (a.length - 4) := by omega
+    have e3 : List.take 4 (List.drop 4 a) = List.drop 4 a := List.take_of_length_le (by rw [List.length_drop]; omega)
+    rw [e1, e2, e3, List.take_zero, List.append_nil]
+  · simp only [zeros, List.drop_append, List.take_append, List.length_append, List.length_replicate, List.take_replicate,
+      List.drop_replicate, List.length_drop]
+    have e0 : List.drop 8 a = [] := List.drop_eq_nil_of_le hn
+    have e1 : 8 - a.length - (8 - a.length) = 0 := by omega
+    have e2 : 8 - (a.length + (8 - a.length)) = 0 := by omega
+    have e3 : 4 - (a.length - 8 + 0) = 4 := by omega
+    have e4 : List.take 4 cap = cap := List.take_of_length_le (by omega)
+    rw [e0, e1, e2, Nat.min_zero, e3, List.drop_zero, e4]
+    simp
+
+theorem interleave_blk (a b cap1 cap2 : List Wd) (n : Nat) (ha : a.length = n) (hb : b.length = n) (hn : n ≤ 8)
+    (hc1 : cap1.length = 4) (hc2 : cap2.length = 4) :
+    ((a.take 4 ++ zeros (4 - min n 4)) ++ (b.take 4 ++ zeros (4 - min n 4))) ++
+      ((a.drop 4 ++ zeros (4 - (n - 4))) ++ (b.drop 4 ++ zeros (4 - (n - 4)))) ++ (cap1 ++ cap2) =
+    interleave ((a ++ zeros (8 - n)) ++ cap1) ((b ++ zeros (8 - n)) ++ cap2) := by
+  obtain ⟨p1, p2, p3⟩ := blk_pieces a cap1 n ha hn hc1
+  obtain ⟨q1, q2, q3⟩ := blk_pieces b cap2 n hb hn hc2
+  unfold interleave
+  rw [p1, p2, p3, q1, q2, q3]
+  simp only [List.append_assoc]
+
+theorem interleave_take8 (s1 s2 : List Wd) (h1 : 4 ≤ s1.length) (h2 : 4 ≤ s2.length) :
+    (interleave s1 s2).take 8 = s1.take 4 ++ s2.take 4 := by
+  unfold interleave
+  simp only [List.append_assoc]
+  rw [← List.append_assoc]
+  apply List.take_left'
+  simp only [List.length_append, List.length_take]
+  omega
+
+
+/-- the interleaved two-input loop is the pair of one-input loops, state by state -/
+theorem lh512_interleave (perm perm2 : List Wd → List Wd)
+    (h : ∀ a b, a.length = 12 → b.length = 12 → perm2 (interleave a b) = interleave (perm a) (perm b))
+    (hp : ∀ s, s.length = 12 → (perm s).length = 12)
+    (in1 in2 : List Wd) (size : Nat) (h1 : in1.length = size) (h2 : in2.length = size) :
+    ∀ (fuel r : Nat) (s1 s2 : List Wd), s1.length = 12 → s2.length = 12 → r ≤ size →
+      lh512Loop perm2 (in1 ++ in2) size fuel r (interleave s1 s2) =
+        interleave (lhLoop perm in1 size fuel r s1) (lhLoop perm in2 size fuel r s2) ∧
+      (lhLoop perm in1 size fuel r s1).length = 12 ∧ (lhLoop perm in2 size fuel r s2).length = 12 := by
+  intro fuel
+  induction fuel with
+  | zero =>
+    intro r s1 s2 l1 l2 _
+    refine ⟨?_, ?_, ?_⟩
+    · simp only [lh512Loop, lhLoop]
+    · simp only [lhLoop]; exact l1
+    · simp only [lhLoop]; exact l2
+  | succ f ih =>
+    intro r s1 s2 l1 l2 hr
+    unfold lh512Loop lhLoop
+    by_cases hr0 : r = 0
+    · simp only [hr0, if_true]
+      exact ⟨trivial, l1, l2⟩
+    · simp only [hr0, if_false]
+      -- the two blocks read by the interleaved loop are the blocks of the two one-input loops
+      have hn8 : min r 8 ≤ 8 := by omega
+      have ea : ((in1 ++ in2).drop (size - r)).take (min r 8) = (in1.drop (size - r)).take (min r 8) := by
+        rw [List.drop_append_of_le_length (by omega), List.take_append_of_le_length (by rw [List.length_drop]; omega)]
+      have eb : ((in1 ++ in2).drop (size + (size - r))).take (min r 8) = (in2.drop (size - r)).take (min r 8) := by
+        have : size + (size - r) = in1.length + (size - r) := by omega
+        rw [this, List.drop_append, List.drop_eq_nil_of_le (by omega), List.nil_append, Nat.add_sub_cancel_left]
+      have la : ((in1.drop (size - r)).take (min r 8)).length = min r 8 := by
+        rw [List.length_take, List.length_drop]; omega
+      have lb : ((in2.drop (size - r)).take (min r 8)).length = min r 8 := by
+        rw [List.length_take, List.length_drop]; omega
+      -- the capacities
+      have lc1 : (if r = size then zeros 4 else s1.take 4).length = 4 := by
+        by_cases hs : r = size
+        · simp only [hs, if_true, zeros, List.length_replicate]
+        · simp only [hs, if_false, List.length_take]; omega
+      have lc2 : (if r = size then zeros 4 else s2.take 4).length = 4 := by
+        by_cases hs : r = size
+        · simp only [hs, if_true, zeros, List.length_replicate]
+        · simp only [hs, if_false, List.length_take]; omega
+      have ecap : (if r = size then zeros 8 else (interleave s1 s2).take 8) =
+          (if r = size then zeros 4 else s1.take 4) ++ (if r = size then zeros 4 else s2.take 4) := by
+        by_cases hs : r = size
+        · simp only [hs, if_true]; rfl
+        · simp only [hs, if_false]; exact interleave_take8 s1 s2 (by omega) (by omega)
+      rw [ea, eb, ecap,
+        interleave_blk _ _ _ _ (min r 8) la lb hn8 lc1 lc2]
+      have len1 : (((in1.drop (size - r)).take (min r 8) ++ zeros (8 - min r 8)) ++
+          (if r = size then zeros 4 else s1.take 4)).length = 12 := by
+        rw [List.length_append, List.length_append, la, lc1]; simp only [zeros, List.length_replicate]; omega
+      have len2 : (((in2.drop (size - r)).take (min r 8) ++ zeros (8 - min r 8)) ++
+          (if r = size then zeros 4 else s2.take 4)).length = 12 := by
+        rw [List.length_append, List.length_append, lb, lc2]; simp only [zeros, List.length_replicate]; omega
+      rw [h _ _ len1 len2]
+      exact ih (r - min r 8) _ _ (hp _ len1) (hp _ len2) (by omega)
+
+theorem zeros24_interleave : zeros 24 = interleave (zeros 12) (zeros 12) := by decide
+
+/-- C07, AVX512 variant: two equally long inputs hashed side by side give the two one-input digests -/
+theorem linearHash512_eq (perm perm2 : List Wd → List Wd)
+    (h : ∀ a b, a.length = 12 → b.length = 12 → perm2 (interleave a b) = interleave (perm a) (perm b))
+    (hp : ∀ s, s.length = 12 → (perm s).length = 12)
+    (in1 in2 : List Wd) (hl : in1.length = in2.length) :
+    linearHash512 perm2 (in1 ++ in2) in1.length = linearHash perm in1 ++ linearHash perm in2 := by
+  unfold linearHash512 linearHash
+  by_cases hs : in1.length ≤ 4
+  · have hs2 : in2.length ≤ 4 := by omega
+    simp only [hs, hs2, if_true]
+    rw [List.take_left', List.drop_left', hl, List.take_of_length_le (Nat.le_refl _)] <;> first | rfl | exact hl.symm ▸ rfl
+  · have hs2 : ¬ in2.length ≤ 4 := by omega
+    simp only [hs, hs2, if_false]
+    obtain ⟨k, k1, k2⟩ := lh512_interleave perm perm2 h hp in1 in2 in1.length rfl hl.symm in1.length in1.length
+      (zeros 12) (zeros 12) (by simp [zeros]) (by simp [zeros]) (Nat.le_refl _)
+    rw [zeros24_interleave, k, interleave_take8 _ _ (by omega) (by omega), ← hl]
+
+end GoldilocksVerif.Model
